@@ -110,6 +110,7 @@ const (
 // BasicParser implements WHATWG basic URL parser (https://url.spec.whatwg.org/#concept-basic-url-parser)
 // In most cases, when possible, prefer using the higher level Parse method.
 func (p *parser) BasicParser(urlOrRef string, baseUrl *Url, url *Url, stateOverride State) (*Url, error) {
+	verifEnter()
 	stateOverridden := stateOverride > NoState
 	if url == nil {
 		url = &Url{inputUrl: urlOrRef, path: &path{}}
@@ -150,6 +151,7 @@ func (p *parser) BasicParser(urlOrRef string, baseUrl *Url, url *Url, stateOverr
 	}
 
 	for {
+		verifTick(state, stateOverridden)
 		r := input.nextCodePoint()
 
 		switch state {
